@@ -1,7 +1,7 @@
 (* C16 proofs: the matcher chosen by the factory accepts exactly the meaning of the normalised type;
    normalisation keeps the factory's invariant, never loses a value, and is meaning-preserving apart
    from the merge of list/dict alternatives. *)
-From Coq Require Import NArith Bool List Lia.
+From Coq Require Import NArith Arith Bool List Lia.
 From SV Require Import Ty.Spec Ty.Model.
 Import ListNotations.
 
@@ -599,3 +599,242 @@ Lemma union_sort_dedup xs v : denote (TUnion (dedup (sort xs))) v = denote (TUni
 Proof. simpl. rewrite dedup_existsb, sort_existsb. reflexivity. Qed.
 Lemma union_assoc a b c v : denote (TUnion [TUnion [a; b]; c]) v = denote (TUnion [a; TUnion [b; c]]) v.
 Proof. simpl. rewrite !orb_false_r. symmetry. apply orb_assoc. Qed.
+
+(* ================================================================================================ *)
+(* normalisation is exactly meaning-preserving on merge-free type expressions *)
+
+Lemma is_never_alts x : is_never x = true -> alts x = [].
+Proof. unfold is_never. destruct (alts x); [reflexivity | discriminate]. Qed.
+Lemma skip_never_flat xs : flat_map alts (skip_never xs) = flat_map alts xs.
+Proof.
+  induction xs as [|x xs IH]; [reflexivity|]. cbn [skip_never]. destruct (is_never x) eqn:E; [|reflexivity].
+  cbn [flat_map]. rewrite (is_never_alts _ E). exact IH.
+Qed.
+
+Fixpoint adj_distinct (l : list ty) : bool :=
+  match l with
+  | a :: l' => match l' with b :: _ => negb (ty_eqb a b) && adj_distinct l' | [] => true end
+  | [] => true
+  end.
+Lemma dedup_hd : forall l b, exists l', dedup (b :: l) = b :: l'.
+Proof.
+  induction l as [|c l IH]; intro b; [exists []; reflexivity|]. rewrite dedup_cons2.
+  destruct (ty_eqb b c) eqn:E.
+  - apply ty_eqb_eq in E. subst c. apply IH.
+  - eexists. reflexivity.
+Qed.
+Lemma dedup_adj_distinct l : adj_distinct (dedup l) = true.
+Proof.
+  induction l as [|a l IH]; [reflexivity|]. destruct l as [|b l]; [reflexivity|]. rewrite dedup_cons2.
+  destruct (ty_eqb a b) eqn:E; [exact IH|]. destruct (dedup_hd l b) as [l' El]. rewrite El in *.
+  cbn [adj_distinct]. cbn [adj_distinct] in IH. rewrite E. exact IH.
+Qed.
+
+Lemma merge2_none u a b :
+  ty_eqb a b = false -> is_list_ty a && is_list_ty b = false -> is_dict_ty a && is_dict_ty b = false ->
+  merge2 u a b = None.
+Proof.
+  destruct a; destruct b; simpl; intros E L D; try reflexivity; try discriminate; rewrite E; reflexivity.
+Qed.
+Lemma no_merge_cons a l : no_merge_alts (a :: l) = true -> no_merge_alts l = true.
+Proof.
+  unfold no_merge_alts, count. cbn [filter]. destruct (is_list_ty a), (is_dict_ty a); cbn [length];
+    rewrite !andb_true_iff, !Nat.leb_le; intros [? ?]; split; lia.
+Qed.
+Lemma no_merge_two a b l : no_merge_alts (a :: b :: l) = true ->
+  is_list_ty a && is_list_ty b = false /\ is_dict_ty a && is_dict_ty b = false.
+Proof.
+  unfold no_merge_alts, count. cbn [filter].
+  destruct (is_list_ty a), (is_list_ty b), (is_dict_ty a), (is_dict_ty b); cbn [length];
+    rewrite !andb_true_iff, !Nat.leb_le; intros [? ?]; split; try reflexivity; lia.
+Qed.
+Lemma merge_adj_id u : forall xs last,
+  adj_distinct (last :: xs) = true -> no_merge_alts (last :: xs) = true -> merge_adj u last xs = last :: xs.
+Proof.
+  induction xs as [|x xs IH]; intros last A N; [reflexivity|]. cbn [merge_adj].
+  cbn [adj_distinct] in A. apply andb_prop in A. destruct A as [A1 A2]. apply negb_true_iff in A1.
+  destruct (no_merge_two _ _ _ N) as [L D]. rewrite (merge2_none u _ _ A1 L D).
+  f_equal. apply IH; [exact A2 | exact (no_merge_cons _ _ N)].
+Qed.
+Lemma merge_adjacent_id u s : adj_distinct s = true -> no_merge_alts s = true -> merge_adjacent u s = s.
+Proof. destruct s as [|a l]; [reflexivity|]. apply merge_adj_id. Qed.
+
+Lemma unions_merge_free f xs :
+  no_merge_alts (dedup (sort (flat_map alts xs))) = true -> unions (S f) xs = unions O xs.
+Proof.
+  intro N. cbn [unions]. unfold unions_body. destruct (existsb is_any xs); [reflexivity|].
+  destruct (skip_never xs) as [|x0 r0] eqn:S1; [reflexivity|].
+  destruct (skip_never r0) as [|x1 rest] eqn:S2; [reflexivity|].
+  match goal with |- (if ?c then _ else _) = _ => destruct c end; [reflexivity|].
+  assert (F : flat_map alts (x0 :: x1 :: rest) = flat_map alts xs).
+  { rewrite <- (skip_never_flat xs), S1. cbn [flat_map]. rewrite <- (skip_never_flat r0), S2. reflexivity. }
+  rewrite F. f_equal. apply merge_adjacent_id; [apply dedup_adj_distinct | exact N].
+Qed.
+
+Lemma map_eq_Forall {A B} (f g : A -> B) (p : A -> bool) l :
+  Forall (fun x => p x = true -> f x = g x) l -> forallb p l = true -> map f l = map g l.
+Proof.
+  induction 1 as [|x l Hx _ IH]; [reflexivity|]. cbn [forallb map]. intro E. apply andb_prop in E.
+  destruct E as [E1 E2]. rewrite (Hx E1), (IH E2). reflexivity.
+Qed.
+
+Theorem merge_free_normalize : forall t, merge_free t = true -> normalize t = normalize_nomerge t.
+Proof.
+  induction t using ty_ind'; cbn [merge_free normalize normalize_nomerge]; intro M; try reflexivity.
+  - rewrite (IHt M). reflexivity.
+  - rewrite (map_eq_Forall _ _ _ _ H M). reflexivity.
+  - rewrite (IHt M). reflexivity.
+  - apply andb_prop in M. destruct M as [M1 M2]. rewrite (IHt1 M1), (IHt2 M2). reflexivity.
+  - rewrite (IHt M). reflexivity.
+  - apply andb_prop in M. destruct M as [M1 M2]. rewrite (map_eq_Forall _ _ _ _ H M1).
+    unfold unions_top, unions_nomerge. apply unions_merge_free. exact M2.
+Qed.
+Theorem normalize_denote_merge_free : forall t, merge_free t = true ->
+  forall v, denote_raw t v = denote (normalize t) v.
+Proof. intros t M v. rewrite (merge_free_normalize t M). apply normalize_nomerge_denote. Qed.
+Theorem check_exact_merge_free : forall t, merge_free t = true -> forall v, check t v = denote_raw t v.
+Proof. intros t M v. rewrite check_normalised. symmetry. apply normalize_denote_merge_free, M. Qed.
+
+(* ================================================================================================ *)
+(* the check paths *)
+
+Lemma ty_eqb_refl : forall a, ty_eqb a a = true.
+Proof.
+  induction a using ty_ind'; simpl; try reflexivity; auto.
+  - destruct b; reflexivity.
+  - induction H as [|x xs Hx _ IH]; simpl; [reflexivity | rewrite Hx, IH; reflexivity].
+  - rewrite IHa1, IHa2. reflexivity.
+  - apply N.eqb_refl.
+  - apply N.eqb_refl.
+  - induction H as [|x xs Hx _ IH]; simpl; [reflexivity | rewrite Hx, IH; reflexivity].
+Qed.
+Lemma never_wf a : wf_ty a = true -> is_never a = true -> a = TNever.
+Proof.
+  destruct a; simpl; intros W Nv; try discriminate; [reflexivity|]. unfold is_never in Nv. simpl in Nv.
+  destruct ts; [discriminate W | discriminate Nv].
+Qed.
+
+(* Ty::union2 is Ty::unions(vec![a, b]) on types that are themselves results of normalisation *)
+Lemma union2_unions_top a b : wf_ty a = true -> wf_ty b = true -> union2 a b = unions_top [a; b].
+Proof.
+  intros Wa Wb. unfold union2.
+  assert (R : unions_top [a; b] = unions_body (Some (fun x y => unions (depth (TUnion [a; b])) [x; y])) [a; b])
+    by reflexivity.
+  destruct (is_any a || is_any b) eqn:A.
+  - rewrite R. unfold unions_body. cbn [existsb]. rewrite orb_false_r, A. reflexivity.
+  - destruct (ty_eqb a b) eqn:E.
+    + apply ty_eqb_eq in E. subst b. rewrite R. unfold unions_body. cbn [existsb]. rewrite orb_false_r, A.
+      cbn [skip_never]. destruct (is_never a) eqn:Na.
+      * cbn [skip_never]. rewrite ?Na. apply never_wf; assumption.
+      * cbn [skip_never]. rewrite ?Na. rewrite ty_eqb_refl. reflexivity.
+    + destruct (is_never a) eqn:Na.
+      * rewrite R. unfold unions_body. cbn [existsb]. rewrite orb_false_r, A. cbn [skip_never]. rewrite ?Na.
+        cbn [skip_never]. destruct (is_never b) eqn:Nb; [apply never_wf; assumption | reflexivity].
+      * destruct (is_never b) eqn:Nb; [|reflexivity].
+        rewrite R. unfold unions_body. cbn [existsb]. rewrite orb_false_r, A. cbn [skip_never]. rewrite ?Na.
+        cbn [skip_never]. rewrite ?Nb. reflexivity.
+Qed.
+
+(* both evaluators produce the factory's matcher for the normalised type *)
+Lemma eval_rt_alloc : forall t, tc_new (eval_rt t) = alloc_ty (normalize t).
+Proof.
+  induction t using ty_ind'; try reflexivity.
+  - cbn [eval_rt tc_new normalize]. unfold type_list_of. rewrite IHt. reflexivity.
+  - cbn [eval_rt tc_new normalize]. unfold from_ty. f_equal. f_equal. rewrite map_map.
+    induction H as [|x xs Hx _ IH]; [reflexivity|]. cbn [map]. rewrite Hx, IH. reflexivity.
+  - cbn [eval_rt tc_new normalize]. rewrite IHt. reflexivity.
+  - cbn [eval_rt tc_new normalize]. unfold type_dict_of. rewrite IHt1, IHt2. reflexivity.
+  - cbn [eval_rt tc_new normalize]. unfold type_set_of. rewrite IHt. reflexivity.
+  - assert (G : type_any_of (map tc_new (map eval_rt ts)) = alloc_ty (normalize (TUnion ts))).
+    { unfold type_any_of. cbn [normalize]. f_equal. f_equal. rewrite !map_map.
+      induction H as [|x xs Hx _ IH]; [reflexivity|]. cbn [map]. rewrite Hx, IH. reflexivity. }
+    destruct ts as [|a [|b [|c l]]]; try exact G.
+    cbn [eval_rt tc_new]. inversion H as [|? ? Ha Hb']; subst. inversion Hb' as [|? ? Hb _]; subst.
+    unfold type_any_of_two. rewrite Ha, Hb. cbn [tc_ty alloc_ty normalize map].
+    rewrite union2_unions_top by apply normalize_wf. reflexivity.
+Qed.
+Lemma eval_ct_alloc : forall t, tc_new (eval_ct t) = alloc_ty (normalize t).
+Proof.
+  induction t using ty_ind'; try reflexivity.
+  - cbn [eval_ct tc_new normalize]. unfold type_list_of. rewrite IHt. reflexivity.
+  - cbn [eval_ct tc_new normalize]. unfold from_ty. f_equal. f_equal.
+    induction H as [|x xs Hx _ IH]; [reflexivity|]. cbn [map]. rewrite Hx, IH. reflexivity.
+  - cbn [eval_ct tc_new normalize]. rewrite IHt. reflexivity.
+  - cbn [eval_ct tc_new normalize]. unfold type_dict_of. rewrite IHt1, IHt2. reflexivity.
+  - cbn [eval_ct tc_new normalize]. unfold type_set_of. rewrite IHt. reflexivity.
+  - cbn [eval_ct tc_new normalize]. unfold type_any_of. f_equal. f_equal. rewrite map_map.
+    induction H as [|x xs Hx _ IH]; [reflexivity|]. cbn [map]. rewrite Hx, IH. reflexivity.
+Qed.
+Lemma compiler_ty_normalize t : compiler_ty t = normalize t.
+Proof. unfold compiler_ty. rewrite eval_ct_alloc. reflexivity. Qed.
+
+Lemma to_frozen_m c : tc_m (to_frozen c) = tc_m c.
+Proof. unfold to_frozen. destruct (tc_frozen c); reflexivity. Qed.
+Lemma to_frozen_ty c : tc_ty (to_frozen c) = tc_ty c.
+Proof. unfold to_frozen. destruct (tc_frozen c); reflexivity. Qed.
+Lemma to_frozen_frozen c : tc_frozen (to_frozen c) = true.
+Proof. unfold to_frozen. destruct (tc_frozen c) eqn:E; [exact E | reflexivity]. Qed.
+
+(* an annotation site: either no check (the matcher is a wildcard) or the factory's matcher *)
+Lemma annotation_matches cty v :
+  matches (matcher_of_annotation (expr_for_type_ty cty)) v = matches (compile cty) v.
+Proof.
+  unfold expr_for_type_ty, from_ty. cbn [alloc_ty tc_m]. destruct (is_wildcard (compile cty)) eqn:W.
+  - cbn [matcher_of_annotation matches]. symmetry. apply wild_matches, W.
+  - cbn [matcher_of_annotation]. rewrite to_frozen_m. reflexivity.
+Qed.
+
+Theorem isinstance_matcher t : compile_at_isinstance t = compile (normalize t).
+Proof. unfold compile_at_isinstance. rewrite eval_rt_alloc. reflexivity. Qed.
+Theorem host_matcher t : compile_at_host t = compile (normalize t).
+Proof. unfold compile_at_host. rewrite eval_rt_alloc. reflexivity. Qed.
+
+Theorem check_isinstance_eq t v : check_isinstance t v = check t v.
+Proof. unfold check_isinstance, check. rewrite isinstance_matcher. reflexivity. Qed.
+Theorem check_param_eq t v : check_param t v = check t v.
+Proof. unfold check_param, compile_at_param, check. rewrite annotation_matches, compiler_ty_normalize. reflexivity. Qed.
+Theorem check_return_eq t v : check_return t v = check t v.
+Proof. unfold check_return, compile_at_return, check. rewrite annotation_matches, compiler_ty_normalize. reflexivity. Qed.
+Theorem check_assign_eq t v : check_assign t v = check t v.
+Proof. unfold check_assign, compile_at_assign, check. rewrite annotation_matches, compiler_ty_normalize. reflexivity. Qed.
+Theorem check_host_eq t v : check_host t v = check t v.
+Proof. unfold check_host, check. rewrite host_matcher. reflexivity. Qed.
+Theorem check_host_frozen_eq t v : check_host_frozen t v = check t v.
+Proof. unfold check_host_frozen, compile_at_host_frozen, check. rewrite to_frozen_m, eval_rt_alloc. reflexivity. Qed.
+Theorem check_param_alias_eq t v : check_param_alias t v = check t v.
+Proof.
+  unfold check_param_alias, compile_at_param_alias, check. rewrite annotation_matches. cbn [tc_new].
+  rewrite to_frozen_ty, eval_rt_alloc. reflexivity.
+Qed.
+
+Theorem paths_agree t v :
+  check_isinstance t v = check_param t v /\ check_param t v = check_return t v /\
+  check_return t v = check_assign t v /\ check_assign t v = check_host t v /\ check_host t v = check t v.
+Proof.
+  rewrite check_isinstance_eq, check_param_eq, check_return_eq, check_assign_eq, check_host_eq.
+  repeat split; reflexivity.
+Qed.
+
+(* freezing changes representation tags only *)
+Lemma view_freeze : forall g, view (freeze_val g) = view g.
+Proof.
+  fix IH 1. intros [f v | f vs | f vs | f vs | f kvs]; cbn [freeze_val view]; try reflexivity.
+  - f_equal. rewrite map_map. induction vs as [|x xs IHl]; [reflexivity|]. cbn [map]. rewrite IH, IHl. reflexivity.
+  - f_equal. rewrite map_map. induction vs as [|x xs IHl]; [reflexivity|]. cbn [map]. rewrite IH, IHl. reflexivity.
+  - f_equal. rewrite map_map. induction vs as [|x xs IHl]; [reflexivity|]. cbn [map]. rewrite IH, IHl. reflexivity.
+  - f_equal. rewrite map_map. induction kvs as [|[k w] xs IHl]; [reflexivity|]. cbn [map]. rewrite !IH, IHl. reflexivity.
+Qed.
+Theorem freeze_invariant c g : check_tc (freeze_ty c) (freeze_val g) = check_tc c g.
+Proof. unfold check_tc, freeze_ty. rewrite to_frozen_m, view_freeze. reflexivity. Qed.
+Theorem freeze_ty_tags_only c :
+  tc_ty (freeze_ty c) = tc_ty c /\ tc_m (freeze_ty c) = tc_m c /\ tc_frozen (freeze_ty c) = true.
+Proof. unfold freeze_ty. rewrite to_frozen_ty, to_frozen_m, to_frozen_frozen. repeat split. Qed.
+(* a type compiled on any path, then frozen, applied to a frozen value: the answer of `check` on the live pair *)
+Theorem freeze_invariant_sites t g :
+  check_tc (freeze_ty (tc_new (eval_rt t))) (freeze_val g) = check t (view g) /\
+  check_tc (freeze_ty (tc_new (eval_ct t))) (freeze_val g) = check t (view g) /\
+  check_tc (tc_new (eval_rt t)) g = check t (view g).
+Proof.
+  unfold check_tc, freeze_ty, check. rewrite !to_frozen_m, view_freeze, eval_rt_alloc, eval_ct_alloc.
+  repeat split; reflexivity.
+Qed.
